@@ -133,6 +133,8 @@ def run(ctx, prop, PROPS, LEVEL):
         ctx.log("wait-for-room construct of the tree (by behaviour): %s" % variant)
         if ctx.replay:
             replay_case(ctx, prop, exe_san, variant)
+            cov["evaluations"] = 1
+            cov["rule"] = "replay of one recorded schedule"
         else:
             explore_all(ctx, prop, exe_san, exe, variant, cov, dist)
     return variant, cov
@@ -190,11 +192,12 @@ def explore_all(ctx, prop, exe_san, exe, variant, cov, dist):
     else:
         configs = [(1, 1, 2), (1, 2, 2), (2, 1, 2), (2, 2, 2), (2, 3, 2), (3, 1, 2), (3, 2, 2), (3, 3, 1), (3, 4, 1),
                    (4, 2, 1)]
-    for n, f, msp in configs:
+    configs = [(n, f, msp, "dsh") for n, f, msp in configs] + [(2, 1, 1, "pcp")]
+    for n, f, msp, pers in configs:
         if enough():
             break
         base = {"fanout": f, "hosts": [{"name": "x%d" % i} for i in range(n)], "yield": "fan", "inline": 0,
-                "budget": 2000}
+                "budget": 2000, "opts": {"pers": pers}}
         buf = []
 
         def on(res):
@@ -205,9 +208,10 @@ def explore_all(ctx, prop, exe_san, exe, variant, cov, dist):
         st = sched.explore(exe, ctx.scratch, base, msp, on, max_runs=30000 if ctx.quick() else 600000,
                            stop=lambda: len(pending) >= 2000)
         consume(buf)
-        st.update({"N": n, "fanout": f, "max_spurious": msp})
+        st.update({"N": n, "fanout": f, "max_spurious": msp, "personality": pers})
         dist["dfs"].append(st)
-        ctx.log("exhaustive N=%d f=%d spurious<=%d: %s" % (n, f, msp, st))
+        ctx.log("exhaustive N=%d f=%d spurious<=%d %s: %d states, %d edges, %d runs, complete=%s" %
+                (n, f, msp, pers, st["states"], st["edges"], st["runs"], st["complete"]))
         if not st["complete"]:
             ctx.notes.append("DFS N=%d f=%d cut off at %d runs" % (n, f, st["runs"]))
 
